@@ -21,7 +21,8 @@ RULE = ("single-language sets of 1-4 cues with distinct increasing times; each c
         "Also: empty lines in the form of a blank text node (' ', '', U+00A0) between two "
         'breaks, and a writer object that has written another set before. '
         "A line may also be cut into 2-3 adjacent text nodes at any character (also inside a "
-        "delimiter such as --> or &amp;), and a caption may begin or end with 1-2 BREAK nodes. ")
+        "delimiter such as --> or &amp;), and a caption may begin or end with 1-2 BREAK nodes. "
+        " For WebVTT also '-->' split over two text nodes with a tag-less style node between them or in a layout group that is not the last; for the legacy / single / SRT writers a caption may occur twice (same times, same text) and the merged cue must hold the lines of both.")
 ASSUMPTIONS = [
     "a line split into several text nodes is compared with all whitespace removed (writers "
     "differ, legitimately, in whether they join text nodes with a space)",
@@ -73,7 +74,29 @@ def case_strategy(tier):
                                 seen_br = True
                             elif "t" in n and seen_br:
                                 n["layout"] = other
-        case = {"writer": w, "set": s}
+        if w == "webvtt" and draw(st.integers(0, 5)) == 0:
+            # "-->" formed by two text nodes with a style node between them that writes no tag
+            c = s["langs"][0]["cues"][draw(st.integers(0, len(s["langs"][0]["cues"]) - 1))]
+            ti = [k for k, n in enumerate(c["nodes"]) if "t" in n]
+            if ti and c["lines"] and c["nodes"][ti[0]]["t"] == c["lines"][0]:
+                lay = c["nodes"][ti[0]].get("layout")
+                st_c = draw(st.sampled_from([{"color": "red"}, {"font-size": "1c"}, {"italics": False}]))
+                left, right = draw(st.sampled_from([("wait --", "> now"), ("wait -", "-> now")]))
+                c["nodes"][ti[0]:ti[0] + 1] = [{"t": left, "layout": lay}, {"s": True, "c": st_c, "layout": lay},
+                                                {"t": right, "layout": lay}, {"s": False, "c": st_c, "layout": lay}]
+                c["lines"][0] = "wait --> now"
+                c["multi"] = True
+        if w in ("dfxp-legacy", "dfxp-single", "srt") and draw(st.integers(0, 5)) == 0:
+            # the same caption twice (same times, same text): writers that merge concurrent
+            # captions join them into one cue holding the lines of both
+            cues_ = s["langs"][0]["cues"]
+            k = draw(st.integers(0, len(cues_) - 1))
+            import copy
+            cues_.insert(k + 1, copy.deepcopy(cues_[k]))
+            case_dups = True
+        else:
+            case_dups = False
+        case = {"writer": w, "set": s, "dups": case_dups}
         if draw(st.integers(0, 3)) == 0:
             case["prev"] = draw(gen.simple_set(ln, 1, 2, gen.HOUR, min_dur=gen.SEC, empty_lines=False))
         if draw(st.integers(0, 3)) == 0:
@@ -151,6 +174,17 @@ def check_case(case, rec):
         got = extract(w, out)
     except P.RefParseError as e:
         raise Violation(f"{w}: output rejected by the independent parser: {e}; output: {out[:500]!r}")
+    if case.get("dups"):
+        merged = []
+        for c in cues:
+            if merged and (merged[-1]["start"], merged[-1]["end"]) == (c["start"], c["end"]):
+                m_ = merged[-1]
+                merged[-1] = dict(m_, lines=m_["lines"] + c["lines"], multi=m_["multi"] or c["multi"],
+                                  empties=m_["empties"] or c["empties"])
+            else:
+                merged.append(dict(c))
+        cues = merged
+        rec.label("duplicate-captions-merged")
     require(len(got) == len(cues),
             lambda: f"{w}: independent parser sees {len(got)} cues, {len(cues)} were written: {out[:600]!r}")
     for i, (c, glines) in enumerate(zip(cues, got)):
